@@ -59,10 +59,21 @@ def invert_event(ids, cid, c, targets, variant):
     try:
         dt = float if variant % 2 else int
         xa, ya = np.array(x, dtype=dt), np.array(y, dtype=dt)
+        ysc, back = 1.0, (lambda z: z)
+        if variant == 4:
+            # sample points stored as int8 and further apart than the dtype's positive range
+            xa = (50 * np.array(x, dtype=int) - 100).astype(np.int8)
+            back = lambda z: (np.asarray(z, dtype=float) + 100.0) / 50.0  # noqa
+        elif variant == 5:
+            # metric values (and targets) of magnitude 1e-200: their squares underflow
+            ysc = 1e-200
+            ya = np.array(y, dtype=float) * ysc
         if variant // 2 % 2 == 0:
             ts = targets
             e["t"] = [list(t) for t in ts]
-            res = invert_pl_function(xa, ya, np.array([t[0] / t[1] for t in ts]))
+            res = invert_pl_function(xa, ya, np.array([t[0] / t[1] for t in ts]) * ysc)
+            if isinstance(res, list):
+                res = [back(z) for z in res]
             e["out"], e["container_ok"] = rec_solutions(res, len(ts), False)
         else:
             t = targets[(cid + variant) % len(targets)]
@@ -179,6 +190,7 @@ def run(ctx: core.Ctx):
         nv = 4 if ctx.tier == "thorough" else 2
         for v in range(nv):
             events.append(invert_event(ids, cid, c, targets, (cid + v * (1 + cid % 2)) % 4 if nv == 2 else v))
+        events.append(invert_event(ids, cid, c, targets, 4 + cid % 2))
         if len(set(c["y"])) > 1:
             ctx.nontrivial.add(json.dumps(c, sort_keys=True))
     # threshold_at_metric on Scores objects
